@@ -19,6 +19,7 @@ func c17(c *Ctx) {
 	r.Decides("a job in a terminal phase returns before any call that evicts, creates/deletes a reservation or writes status")
 	r.Decides("the evictor is called only when the eviction condition is not True, the reason is not Evicting and the reservation is not bound by another pod; after a successful eviction the Evicting condition is written before returning")
 	r.Decides("the TTL abort deletes the reservation before it marks the job failed, and a delete error other than NotFound returns before the status write")
+	r.Decides("a failed reservation delete is reported to the caller (the job is not marked failed while its reservation may still exist)")
 	r.Declines("multi-reconcile histories with injected faults, 'at most once' over several reconciles (depends on the persisted condition being read back)")
 
 	fn := c.Fn(migrationPkg, "Reconciler", "doMigrate")
